@@ -19,3 +19,7 @@ SM_ENTRY(h_sm_resumed, SmResumed, 1, 0, (void)0)
 SM_ENTRY(h_sm_ack, SmAck, 1, 0, (void)0)
 SM_ENTRY(h_sm_request, SmRequest, 1, 0, (void)0)
 SM_ENTRY(h_sm_failed, SmFailed, 3, 1, c02_warm_QXmppStanza())
+
+#define SM_SAFE(fn, T, N1, N2, WARM) extern "C" void fn() { vp_c02_init(); c02_warm_QXmppStreamManagement(); WARM; bool admitted = false; { C02Tree<N1, N2> t; t.build(V); C02_SAFE_OPT(T, t.root.el, admitted) } \
+    vp_assume(admitted); }
+SM_SAFE(h_sm_failed_safe, SmFailed, 3, 1, c02_warm_QXmppStanza())
